@@ -18,7 +18,7 @@ from .surface import print_doc
 
 ROUTES = ['ctor_str', 'ctor_path', 'ctor_file', 'static_parse', 'instance_parse',
           'parse_file_str', 'parse_file_path', 'parse_file_file']
-BAD = ['bytes', 'int', 'list', 'StringIO', 'float', 'tuple']
+BAD = ['bytes', 'int', 'list', 'StringIO', 'float', 'tuple', 'int0', 'bytes_empty', 'list_empty', 'tuple_empty', 'float0', 'false', 'dict_empty']
 
 
 def _call(route: str, text: str, bom: bool, opts: Dict[str, bool], tmpdir: str):
@@ -79,6 +79,8 @@ def _call(route: str, text: str, bom: bool, opts: Dict[str, bool], tmpdir: str):
         db = PyDBML([src], **kw)
     elif route == 'tuple':
         db = PyDBML((src,), **kw)
+    elif route in ('int0', 'bytes_empty', 'list_empty', 'tuple_empty', 'float0', 'false', 'dict_empty'):
+        db = PyDBML({'int0': 0, 'bytes_empty': b'', 'list_empty': [], 'tuple_empty': (), 'float0': 0.0, 'false': False, 'dict_empty': {}}[route], **kw)
     elif route == 'StringIO':
         db = PyDBML(io.StringIO(src), **kw)
     else:
@@ -124,7 +126,16 @@ def main(argv: List[str]) -> int:
     tid = 0
     for with_props in (False, True):
         ds = docs.gen_docs(lo, lo + n - 1, with_props, rep)
+        ds = ds + [(-1, None)]            # and the EMPTY document (the empty string is a source like any other)
         for seed, doc in ds:
+            if doc is None:
+                for route in ROUTES:
+                    for bom in (False, True):
+                        for allow in (False, True):
+                            tid += 1
+                            items[tid] = {'tid': tid, 'doc': [], 'route': route, 'bom': bom, 'opts': {'allow': allow, 'custom': allow},
+                                          'fseed': None, 'pinned': {}, 'seed': seed, 'want': 'route', 'allow': allow, 'variant': 'empty'}
+                continue
             # content with the Unicode line separators that str.splitlines() honours: a route that
             # re-splits its input would change it
             doc = doc + [{'d': 'sticky', 'name': 'zz_sep', 'text': 'sep~u2028~arator ~u0085~ nel~u2029~ par'}]
